@@ -81,16 +81,73 @@ def _method(eff):
     return eff["name"].split("::")[-1]
 
 
+ELEM_BYTES = {"int": 4, "int32_t": 4, "Torus32": 4, "unsigned int": 4, "uint32_t": 4, "double": 8, "long": 8, "unsigned long": 8,
+              "int64_t": 8, "uint64_t": 8, "char": 1, "unsigned char": 1}
+
+
+def _staging_root(t):
+    """(buffer root, element size) when t points into a buffer allocated by the function itself with new T[n]"""
+    while t[0] == "cast":
+        t = t[2]
+    base, off = sym.ptr_split(t)
+    if base[0] == "new" and base[1] in ELEM_BYTES:
+        return base, off, ELEM_BYTES[base[1]]
+    return None
+
+
+def _staged_writes(staged, ptr, size, line):
+    """A write of a private staging buffer is the write of what was copied into it: the segments copied into the buffer since
+    its last use (memcpy blocks and single elements) must tile [0, size); they are emitted in buffer order."""
+    sr = _staging_root(ptr)
+    if sr is None or sr[1] != ZERO or sr[0] not in staged:
+        return None
+    segs = staged.pop(sr[0])
+    pos = ZERO
+    out = []
+    left = list(segs)
+    while left:
+        nxt = next((sg for sg in left if sg[0] == pos), None)
+        if nxt is None:
+            return None
+        left.remove(nxt)
+        out.append({"op": "bin", "dir": "w", "ptr": nxt[2], "size": nxt[1], "l": line, "staged": True})
+        pos = sym.add(pos, nxt[1])
+    if pos != size:
+        return None
+    return out
+
+
 def extract_ops(effects, direction):
     """effect tree -> op tree"""
     ops = []
     sections = {}   # props object term -> op dict
+    staged = {}     # private staging buffer -> [(byte offset, byte length, source pointer)]
     for x in effects:
         e = x["e"]
+        if e == "call" and x["name"] in ("memcpy", "std::memcpy", "memmove") and len(x["args"]) == 3 and x["args"][0] is not None:
+            sr = _staging_root(x["args"][0])
+            if sr is not None:
+                src = x["args"][1]
+                while src[0] == "cast":
+                    src = src[2]
+                staged.setdefault(sr[0], []).append((sym.mul(sr[1], I(sr[2])), x["args"][2], src))
+                continue
+        if e == "store" and x["op"] == "=" and x["lv"][0] == "idx":
+            sr = _staging_root(sym.addr(x["lv"]))
+            if sr is not None:
+                val = x["val"]
+                while val[0] == "cast":
+                    val = val[2]
+                staged.setdefault(sr[0], []).append((sym.mul(sr[1], I(sr[2])), I(sr[2]), sym.addr(val) if val[0] in ("fld", "idx") else ("value", val)))
+                continue
         if e == "call":
             rec = x["name"].rsplit("::", 1)[0] if "::" in x["name"] else ""
             m = _method(x)
             if rec in STREAM_RECORDS and m in ("fwrite", "fread") and len(x["args"]) == 2:
+                sw = _staged_writes(staged, x["args"][0], x["args"][1], x["l"]) if m == "fwrite" else None
+                if sw is not None:
+                    ops.extend(sw)
+                    continue
                 ops.append({"op": "bin", "dir": "w" if m == "fwrite" else "r", "ptr": x["args"][0],
                             "size": x["args"][1], "l": x["l"]})
             elif rec in STREAM_RECORDS and x.get("kind") != "construct" and not m.startswith("~"):
